@@ -15,7 +15,7 @@ from sim.kernel import Result, Violation, stream
 
 PROP = 'C05'
 TIERS = {
-  'quick': dict(runs=700, deadline=60, workers=16),
+  'quick': dict(runs=700, deadline=50, workers=16),
   'thorough': dict(runs=40000, deadline=840, workers=16),
 }
 SELFTEST_RUNS = 96
